@@ -17,27 +17,28 @@ import (
 )
 
 type World struct {
-	repo      string
-	fset      *token.FileSet
-	pkgs      []*packages.Package
-	prog      *ssa.Program
-	spkgs     map[string]*ssa.Package // by path
-	byName    map[string]*ssa.Package // by package name
-	cs        *Contracts
-	sorts     *Sorts
-	heapSorts map[string]string
-	heapTypes map[string]types.Type
-	ghostKeys map[string]bool
-	decls     strings.Builder
-	declared  map[string]bool
-	tags      map[string]int
-	tagTypes  []types.Type
-	needClosure bool
-	funcs     map[string]*ssa.Function // key -> function
-	funcIDs   map[*ssa.Function]int
-	globalIDs map[*ssa.Global]int
-	pureExt   map[string]bool
-	ifaces    map[string]types.Type
+	repo          string
+	fset          *token.FileSet
+	pkgs          []*packages.Package
+	prog          *ssa.Program
+	modulePath    string
+	spkgs         map[string]*ssa.Package // by path
+	byName        map[string]*ssa.Package // by package name
+	cs            *Contracts
+	sorts         *Sorts
+	heapSorts     map[string]string
+	heapTypes     map[string]types.Type
+	ghostKeys     map[string]bool
+	decls         strings.Builder
+	declared      map[string]bool
+	tags          map[string]int
+	tagTypes      []types.Type
+	needClosure   bool
+	funcs         map[string]*ssa.Function // key -> function
+	funcIDs       map[*ssa.Function]int
+	globalIDs     map[*ssa.Global]int
+	pureExt       map[string]bool
+	ifaces        map[string]types.Type
 	recInProgress map[string]bool
 }
 
@@ -65,6 +66,7 @@ func LoadWorld(repo string, extraSpecs []string) (*World, error) {
 	prog, _ := ssautil.AllPackages(pkgs, ssa.NaiveForm|ssa.InstantiateGenerics)
 	prog.Build()
 	w.prog = prog
+	w.modulePath = "github.com/tigerwill90/fox"
 	for _, sp := range prog.AllPackages() {
 		w.spkgs[sp.Pkg.Path()] = sp
 		if _, dup := w.byName[sp.Pkg.Name()]; !dup || strings.Contains(sp.Pkg.Path(), "tigerwill90") {
@@ -181,7 +183,7 @@ func (w *World) parseType(s string, pkg *ssa.Package) types.Type {
 				})
 			}
 			if err != nil {
-				panic(specError{"type alias " + s + ": " + err.Error()})
+				panic(specError{msg: "type alias " + s + ": " + err.Error()})
 			}
 			return tv.Type
 		}
@@ -431,7 +433,7 @@ func (w *World) declareSpecFun(sf *SpecFun, v *FnVC, pkg *ssa.Package) string {
 		for _, p := range sf.Params {
 			t := w.parseType(p.Type, pkg)
 			if t == nil {
-				panic(specError{fmt.Sprintf("unknown type %s in spec function %s", p.Type, sf.Name)})
+				panic(specError{msg: fmt.Sprintf("unknown type %s in spec function %s", p.Type, sf.Name)})
 			}
 			ps = append(ps, w.sorts.sortOf(t))
 		}
@@ -514,6 +516,11 @@ func (w *World) functionsForProp(prop string) []*FuncContract {
 
 func hasProp(fc *FuncContract, prop string) bool {
 	for _, p := range fc.Props {
+		if p == prop {
+			return true
+		}
+	}
+	for _, p := range fc.NoAllocProps {
 		if p == prop {
 			return true
 		}
